@@ -269,6 +269,8 @@ impl<Id: InternId> InternTable<Id, Id::Intern> {
             Err(insert_lock) => insert_lock,
         };
         let id = Id::wrap(self.arena.add(t.into()));
+        #[cfg(isographlabs_isograph_verif)]
+        crate::verif::verif_point(crate::verif::INTERN_BETWEEN_ADD_AND_INSERT);
         insert_lock.insert(AsInterned(id));
         id
     }
@@ -308,6 +310,8 @@ impl<Id: InternId> InternTable<Id, Id::Intern> {
     fn serdes_type_index_slow(&'static self) -> u32 {
         let i = NEXT_SERDES_TYPE_INDEX.fetch_add(1, Ordering::Relaxed);
         assert!(i != u32::MAX); // Or we've overflowed.
+        #[cfg(isographlabs_isograph_verif)]
+        crate::verif::verif_point(crate::verif::SERDES_INDEX_BEFORE_CAS);
                                 // Now, we might be racing another thread to assign self.type_index.
                                 // So CAS it in, keeping any entry that was already there (since it's
                                 // already being used).
